@@ -20,6 +20,7 @@ EXPLANATION = (
 )
 EXPLANATION += ' R20.15: the returned prefix is cut from the start offset that is returned.'
 EXPLANATION += ' R20.13: identifier characters.  R20.14: an object expression is split off only behind a character found to be a dot.'
+EXPLANATION += " R20.16: in the anchored modules and the shared text utilities no source text is cut with str.splitlines() (it breaks at form feed, \x1c-\x1e, \x85, U+2028/9; rope's and the ast's line numbers count \n only)."
 ASSUMPTIONS = ["proposal name is the first constructor argument"]
 
 PROPOSALS = {"CompletionProposal", "NamedParamProposal"}
@@ -390,6 +391,14 @@ def check(ctx, res) -> None:
     _dot_is_looked_at_rule(ctx, res)
     _prefix_matches_its_start_rule(ctx, res)
     identifier_char_rule(ctx, res, "R20.13", ("rope.contrib.codeassist", "rope.contrib.fixsyntax", "rope.contrib.findit", "rope.base.worder"))
+    from .c02 import decorators_above_the_statement_rule, header_expression_scope_rule, comprehension_iterable_scope_rule
+
+    header_expression_scope_rule(ctx, res, "R20.17")
+    comprehension_iterable_scope_rule(ctx, res, "R20.17")
+    decorators_above_the_statement_rule(ctx, res, "R20.17")
+    from .common import line_model_rule as _lm
+
+    _lm(ctx, res, "R20.16", ('rope.contrib.codeassist', 'rope.contrib.fixsyntax', 'rope.contrib.findit', 'rope.base.worder', 'rope.base.evaluate'))
 
 
 def _dot_is_looked_at_rule(ctx, res) -> None:
